@@ -29,6 +29,16 @@ Theorem C14_get_functions_tiles : forall (A B : Type) (l : list A) (m : list B) 
 Proof. exact @get_functions_tiles. Qed.
 Print Assumptions C14_get_functions_tiles.
 
+(* test_all.get_functions: the (data_start, data_end) pairs handed to the ranks form one chain
+   0 = start_0 <= end_0 = start_1 <= ... <= end_{P-1} = len(fcn_list): no gap, no overlap, nothing out of range. *)
+Theorem C14_get_functions_chain : forall (A : Type) (l : list A) (P : Z),
+  1 <= P ->
+  gf_start l 0 P = 0 /\ gf_end l (P - 1) P = py_len l /\
+  (forall r, 0 <= r < P - 1 -> gf_end l r P = gf_start l (r + 1) P) /\
+  (forall r, 0 <= r < P -> 0 <= gf_start l r P <= gf_end l r P /\ gf_end l r P <= py_len l).
+Proof. exact @get_functions_chain. Qed.
+Print Assumptions C14_get_functions_chain.
+
 (* utils.split_idx, load balance: rank r owns N/P indices plus one when r < N mod P, so any two
    ranks differ by at most one index and no rank owns more than ceil(N/P). *)
 Theorem C14_split_idx_balanced : forall N P r : Z,
